@@ -11,22 +11,32 @@ extra="$@"
 src=/tmp/seed-$id
 wt=/tmp/vs-$id
 dst=/verif/seeded/$id
-[ -f $src/SEED/patch.diff ] || { echo "no patch for $id"; exit 2; }
 mkdir -p $dst
+if [ -f $src/SEED/patch.diff ]; then
+  # first filing: import from the sub-agent's worktree
+  demo=$(cd $src && find . -name 'zz_seed_demo*_test.go' -not -path './SEED/*' | head -1)
+  [ -n "$demo" ] || demo=$(cd $src && find . -name '*seed*demo*' -not -path './SEED/*' -name '*.go' | head -1)
+  cp $src/SEED/patch.diff $dst/patch.diff
+  cp $src/$demo $dst/ 2>/dev/null || cp $src/SEED/*demo* $dst/
+  [ -f $dst/meta.json ] || cp $src/SEED/meta.json $dst/meta.json 2>/dev/null
+else
+  # re-validation from what is filed under /verif/seeded/<id>
+  [ -f $dst/patch.diff ] || { echo "no patch for $id"; exit 2; }
+  demo=$(python3 -c "import json;print(json.load(open('$dst/meta.json'))['demo_location'])")
+fi
+patch=$dst/patch.diff
+demofile=$dst/$(basename "$demo")
 git -C /repo worktree remove --force $wt 2>/dev/null
 git -C /repo worktree add -q $wt HEAD || exit 2
 cd $wt
-# where does the demo live in the seed worktree?
-demo=$(cd $src && find . -name 'zz_seed_demo*_test.go' -not -path './SEED/*' | head -1)
-[ -n "$demo" ] || demo=$(cd $src && find . -name '*seed*demo*' -not -path './SEED/*' -name '*.go' | head -1)
 echo "demo: $demo"
 pkg=$(dirname "$demo")
-cp $src/$demo $wt/$demo
+cp $demofile $wt/$demo
 run=$(grep -o 'func Test[A-Za-z0-9_]*' $wt/$demo | sed 's/func //' | paste -sd'|')
 echo "tests: $run in ./$pkg"
 without=$(go test -vet=off -count=1 -run "^($run)\$" ./$pkg 2>&1 | tail -3)
 echo "--- without patch: $without"
-git apply $src/SEED/patch.diff || { echo "patch does not apply"; exit 2; }
+git apply $patch || { echo "patch does not apply"; exit 2; }
 go build ./... || { echo "patched tree does not build"; exit 2; }
 with=$(go test -vet=off -count=1 -run "^($run)\$" ./$pkg 2>&1 | tail -4)
 echo "--- with patch: $with"
@@ -41,7 +51,7 @@ git -C /repo worktree remove --force $wt
 # 3. our check against /repo with the patch
 verdicts=""
 for chk in $id $extra; do
-  git -C /repo apply $src/SEED/patch.diff || { echo "cannot apply to /repo"; exit 2; }
+  git -C /repo apply $patch || { echo "cannot apply to /repo"; exit 2; }
   out=$(VERIF_OUT=/verif/.work/seedrun ./bin/vcheck run $chk -tier quick 2>&1)
   code=$?
   git -C /repo checkout -- .
@@ -50,12 +60,10 @@ for chk in $id $extra; do
   verdicts="$verdicts$chk: exit $code [$keys] | "
 done
 git -C /repo status --short | head -3
-cp $src/SEED/patch.diff $dst/patch.diff
-cp $src/$demo $dst/ 2>/dev/null || cp $src/SEED/*demo* $dst/
 python3 - "$id" "$src" "$dst" "$demo" "$without" "$with" "$pkgtests" "$verdicts" <<'PY'
 import json,sys
 id,src,dst,demo,without,with_,pkgtests,verdicts=sys.argv[1:9]
-try: meta=json.load(open(src+'/SEED/meta.json'))
+try: meta=json.load(open(dst+'/meta.json'))
 except Exception: meta={}
 meta['property']=id.upper()
 meta['demo_location']=demo
